@@ -12,7 +12,7 @@
 #include <event2/thread.h>
 
 namespace {
-enum St { RUNNABLE, BLOCKED_LOCK, BLOCKED_COND, BLOCKED_JOIN, DONE };
+enum St { RUNNABLE, BLOCKED_LOCK, BLOCKED_COND, BLOCKED_JOIN, BLOCKED_PARK, DONE };
 struct Th { int id; pthread_t pt; sem_t sem; St st; void *waiting_on; void (*fn)(void *); void *arg; };
 struct SLock { unsigned type; int owner; int count; int id; };
 struct SCond { int id; };
@@ -42,6 +42,9 @@ int pick() {
   if (n == 1) return cand[0];
   // bias: stay on the current thread half of the time so scripts make progress, otherwise uniform
   int self = t_self; bool self_ok = g_th[self]->st == RUNNABLE;
+  if (!g_src || g_src->exhausted()) {   // no choices left: fair round-robin so that nobody starves
+    for (int k = 1; k <= (int)g_th.size(); k++) { int c = (self + k) % (int)g_th.size(); if (g_th[c]->st == RUNNABLE) return c; }
+  }
   uint32_t r = g_src ? g_src->below(2 * n) : 0;
   if (r >= (uint32_t)n) return self_ok ? self : cand[r - n];
   return cand[r];
@@ -113,18 +116,22 @@ int c_wait(void *p, void *lk, const struct timeval *) {
 }
 unsigned long id_cb(void) { return (unsigned long)t_self + 1; }
 
+// Threads are pooled across cases (creating pthreads under ASan is expensive): a pooled thread sleeps on its
+// semaphore, runs the function assigned by sched_spawn, reports DONE, hands the token on and sleeps again.
 void *trampoline(void *a) {
   Th *t = (Th *)a; t_self = t->id;
-  while (sem_wait(&t->sem) != 0) {}
-  t->fn(t->arg);
-  t->st = DONE;
-  for (auto *o : g_th) if (o->st == BLOCKED_JOIN) o->st = RUNNABLE;
-  // hand the token to someone else; this thread never runs again
-  int nx = pick();
-  if (nx < 0) verif_fail("C09/deadlock", "thread T%d finished and nobody is runnable", t->id);
-  g_switches++; g_cur = nx; sem_post(&g_th[nx]->sem);
+  for (;;) {
+    while (sem_wait(&t->sem) != 0) {}
+    t->fn(t->arg);
+    t->st = DONE;
+    for (auto *o : g_th) if (o->st == BLOCKED_JOIN) o->st = RUNNABLE;
+    int nx = pick();
+    if (nx < 0) verif_fail("C09/deadlock", "thread T%d finished and nobody is runnable", t->id);
+    g_switches++; g_cur = nx; sem_post(&g_th[nx]->sem);
+  }
   return nullptr;
 }
+std::vector<Th *> g_pool;   // index i holds the thread with id i+1
 }  // namespace
 
 extern "C" void sched_install(void) {
@@ -134,16 +141,20 @@ extern "C" void sched_install(void) {
   evthread_set_lock_callbacks(&cbs); evthread_set_condition_callbacks(&cc); evthread_set_id_callback(id_cb);
 }
 void sched_begin(Src *s) {
-  for (auto *t : g_th) { sem_destroy(&t->sem); delete t; } g_th.clear();
-  Th *m = new Th{0, pthread_self(), {}, RUNNABLE, nullptr, nullptr, nullptr}; sem_init(&m->sem, 0, 0); g_th.push_back(m);
+  if (g_th.empty()) { Th *m = new Th{0, pthread_self(), {}, RUNNABLE, nullptr, nullptr, nullptr}; sem_init(&m->sem, 0, 0); g_th.push_back(m); }
+  g_th.resize(1); g_th[0]->st = RUNNABLE; g_th[0]->waiting_on = nullptr;
   t_self = 0; g_cur = 0; g_src = s; g_active = true; g_switches = g_preempt_after_unlock = 0; g_last_unlocked_lock = -1; g_last_unlocker = -1;
 }
 int sched_spawn(void (*fn)(void *), void *arg) {
-  Th *t = new Th{(int)g_th.size(), {}, {}, RUNNABLE, nullptr, fn, arg}; sem_init(&t->sem, 0, 0); g_th.push_back(t);
-  pthread_attr_t at; pthread_attr_init(&at); pthread_attr_setstacksize(&at, 1 << 20);
-  if (pthread_create(&t->pt, &at, trampoline, t)) abort();
-  pthread_attr_destroy(&at);
-  return t->id;
+  int id = (int)g_th.size();
+  if ((int)g_pool.size() < id) {
+    Th *t = new Th{id, {}, {}, DONE, nullptr, nullptr, nullptr}; sem_init(&t->sem, 0, 0); g_pool.push_back(t);
+    pthread_attr_t at; pthread_attr_init(&at); pthread_attr_setstacksize(&at, 1 << 20);
+    if (pthread_create(&t->pt, &at, trampoline, t)) abort();
+    pthread_attr_destroy(&at);
+  }
+  Th *t = g_pool[id - 1]; t->fn = fn; t->arg = arg; t->st = RUNNABLE; t->waiting_on = nullptr; g_th.push_back(t);
+  return id;
 }
 void sched_yield_point(void) { if (g_active) reschedule("yield"); }
 int sched_self(void) { return t_self; }
@@ -160,6 +171,9 @@ void sched_run_others(void) {
     switch_to(nx);
   }
 }
+void sched_park(void) { g_th[t_self]->st = BLOCKED_PARK; reschedule("park"); }
+void sched_unpark(int id) { if (g_th[id]->st == BLOCKED_PARK) g_th[id]->st = RUNNABLE; }
+int sched_cond_waiters(void) { int n = 0; for (auto *t : g_th) if (t->st == BLOCKED_COND) n++; return n; }
 int sched_thread_done(int id) { return g_th[id]->st == DONE; }
 void sched_wait_thread(int id) {
   int self = t_self;
@@ -182,7 +196,6 @@ void sched_join_all(void) {
     int nx = pick(); g_th[self]->st = BLOCKED_JOIN; switch_to(nx);
     g_th[self]->st = RUNNABLE;
   }
-  for (auto *t : g_th) if (t->id != 0) pthread_join(t->pt, nullptr);
 }
 void sched_end(void) { g_active = false; g_src = nullptr; }
 uint64_t sched_switches(void) { return g_switches; }
